@@ -28,3 +28,7 @@ Proof.
   - intros w0 H. vm_compute in H. injection H as <-. vm_compute. reflexivity.
   - do 3 eexists. do 3 (split; [vm_compute; reflexivity |]). cbv zeta. split; vm_compute; reflexivity.
 Qed.
+
+(* every table write found in the source (4 of them) is immediately followed by a whitespace (newline) write in the same block *)
+Lemma source_tables_terminated : tables_terminated cfg_vtk = true /\ list_sum (map (fun m => count_tables 100 (snd m)) cfg_vtk) = 4.
+Proof. split; vm_compute; reflexivity. Qed.
